@@ -157,6 +157,7 @@ type Machine struct {
 	promVecs       map[*Value]*promVec
 	promMetrics    map[*Value]*promMetric
 	promRegistered map[*Value]map[string]bool
+	syncMaps       map[*Value]*Map
 }
 
 type classDef struct {
